@@ -178,7 +178,7 @@ where
         }
         (Float(v1), Float(v2)) => {
             let f = float_op(*v1, *v2);
-            if f.is_infinite() {
+            if !f.is_finite() {
                 return None;
             } else {
                 Float(f)
@@ -186,7 +186,7 @@ where
         }
         (Integer(v1), Float(v2)) => {
             let f = float_op(f64::from(*v1), *v2);
-            if f.is_infinite() {
+            if !f.is_finite() {
                 return None;
             } else {
                 Float(f)
@@ -194,7 +194,7 @@ where
         }
         (Float(v1), Integer(v2)) => {
             let f = float_op(*v1, f64::from(*v2));
-            if f.is_infinite() {
+            if !f.is_finite() {
                 return None;
             } else {
                 Float(f)
@@ -290,7 +290,7 @@ impl GarnishNumber for SimpleNumber {
                 }
 
                 let f = v1.powf(v2);
-                if f.is_infinite() {
+                if !f.is_finite() {
                     return None;
                 } else {
                     Float(f)
@@ -302,7 +302,7 @@ impl GarnishNumber for SimpleNumber {
                 }
 
                 let f = f64::from(v1).powf(v2);
-                if f.is_infinite() {
+                if !f.is_finite() {
                     return None;
                 } else {
                     Float(f)
@@ -314,7 +314,7 @@ impl GarnishNumber for SimpleNumber {
                 }
 
                 let f = v1.powf(f64::from(v2));
-                if f.is_infinite() {
+                if !f.is_finite() {
                     return None;
                 } else {
                     Float(f)
